@@ -109,11 +109,11 @@ theorem tile_of_tiling {cs : List Char} {ls : List Lexeme} (h : Tiling cs ls [])
     rw [tile_cons_some hsel, ih hR]
 
 /-- the text before the error column lexes on its own, to the same lexemes -/
-theorem lexLine_error_prefix {lno : Nat} {pending ln : String} {c : Nat}
+theorem lexLine_error_prefix {lno : Nat} {pending : Option String} {ln : String} {c : Nat}
     (h : lexLine lno pending ln = .error c) :
     ∃ (pre rest : List Char) (ls : List Lexeme), ln.toList = pre ++ rest ∧ rest ≠ [] ∧ select rest = none ∧
       c = 1 + byteLen pre ∧ Tiling pre ls [] ∧ ls.flatMap (·.text) = pre ∧
-      lexLine lno pending (String.ofList pre) = .ok (readToks lno 0 (pendingOf pending) ls) := by
+      lexLine lno pending (String.ofList pre) = .ok (readToks lno 0 pending ls) := by
   obtain ⟨ls, rest, h1, h2, h3, h4⟩ := lexLine_error h
   cases rest with
   | nil => exact absurd rfl h2
